@@ -123,7 +123,11 @@ twin("c01-twin-filter-in", "C01",
             and (self.selector.find(".\\\\") == -1)
             and (self.selector.find("\\\\\\\\") == -1)
             and (self.selector.find("\\0") == -1)
-        )''', '''        return not any(bad in self.selector for bad in ("./", "..", "//", ".\\\\", "\\\\\\\\", "\\0"))'''))
+            # "/dir/." is "/dir" under another name: everything below it
+            # would be "/dir/./x" and refused above, so the directory would
+            # list (and cache) as empty
+            and not self.selector.endswith("/.")
+        )''', '''        return not any(bad in self.selector for bad in ("./", "..", "//", ".\\\\", "\\\\\\\\", "\\0")) and not self.selector.endswith("/.")'''))
 twin("c01-twin-filter-sequential", "C01",
      (BASE, '''        return (
             (self.selector.find("./") == -1)
@@ -893,3 +897,75 @@ def _peer(protocol):
     return protocol.requesthandler.client_address[0] if protocol else "unknown-address"
 '''))
 fault("c20-log-line-peer-port", "C20", "R20d", (GEXC, "protocol.requesthandler.client_address[0]", "protocol.requesthandler.client_address[1]"))
+
+# ======================================================================= round g (R01m, R04i, R05g gopher side, R07f failing filter, R10f, R11f, R12g,
+# R15h, R16j, R17l, R19a deferred keys, R20a own writes)
+URLH = "pygopherd/handlers/url.py"
+HMUX = "pygopherd/handlers/HandlerMultiplexer.py"
+fault("c01-rewriter-hands-on-unslashed", "C01", "R01m", (URLH, '            and self.selector[2] == "/"\n', '            and self.selector[1] in "0123456789"\n'))
+twin("c01-twin-rewriter-local", "C01",
+     (URLH, "        return handlers.HandlerMultiplexer.getHandler(\n            self.selector[2:],",
+      "        rest = self.selector[2:]\n        return handlers.HandlerMultiplexer.getHandler(\n            rest,"))
+fault("c02-spartan-accepts-non-ascii", "C02", "R02h",
+      (SPAR, "        except UnicodeEncodeError:\n            return False\n", "        except UnicodeEncodeError:\n            pass\n"))
+fault("c04-mime-of-basename", "C04", "R04i",
+      (GE, "mimetypes.guess_type(self.selector, strict=False)", "mimetypes.guess_type(os.path.basename(self.selector), strict=False)"))
+twin("c04-twin-mime-local", "C04",
+     (GE, "        mimetype, encoding = mimetypes.guess_type(self.selector, strict=False)\n",
+      "        looked_up = self.selector\n        mimetype, encoding = mimetypes.guess_type(looked_up, strict=False)\n"))
+fault("c05-selector-slashes-collapsed", "C05", "R05g",
+      (PBASE, '        if len(selector) == 0 or selector[0] != "/":\n            selector = "/" + selector\n        return selector\n',
+       '        if len(selector) == 0 or selector[0] != "/":\n            selector = "/" + selector\n        while "//" in selector:\n            selector = selector.replace("//", "/")\n        return selector\n'))
+fault("c07-one-failure-ends-the-scan", "C07", "R07f",
+      (DIR, '''        for file in dirfiles:
+            try:
+                if self.prep_initfiles_canaddfile(
+                    ignorepatt, self.selectorbase + "/" + file, file
+                ):
+                    self.files.append(file)
+            except OSError:
+                # An unreadable entry must not take down the whole listing.
+                continue
+''', '''        try:
+            for file in dirfiles:
+                if self.prep_initfiles_canaddfile(
+                    ignorepatt, self.selectorbase + "/" + file, file
+                ):
+                    self.files.append(file)
+        except OSError:
+            # An unreadable entry must not take down the whole listing.
+            pass
+'''))
+fault("c08-continuation-skips-comment-lines", "C08", "R08g",
+      (UMN, "                    abstractline = fd.readline().strip()\n",
+       "                    abstractline = fd.readline().strip()\n                    while abstractline.startswith(\"#\"):\n                        abstractline = fd.readline().strip()\n"))
+fault("c09-port-only-with-host", "C09", "R09a",
+      (GMAP, "                    if len(args) >= 4 and len(args[3]):\n", "                    if len(args) >= 4 and len(args[3]) and len(args[2]):\n"))
+fault("c10-dot-spelling-accepted", "C10", "R10f", (BASE, '            and not self.selector.endswith("/.")\n', ""))
+twin("c10-twin-dot-spelling-by-slice", "C10", (BASE, 'and not self.selector.endswith("/.")', 'and self.selector[-2:] != "/."'))
+fault("c11-empty-cache-shortcut", "C11", "R11f",
+      (DIR, "        if time.time() - statval[stat.ST_MTIME] < self.cachetime:\n            try:\n",
+       "        if time.time() - statval[stat.ST_MTIME] < self.cachetime:\n            if statval[stat.ST_SIZE] < 8:\n                self.fileentries = []\n"
+       "                self.fromcache = True\n                return True\n            try:\n"))
+fault("c12-selection-failure-keyerror", "C12", "R12g",
+      (HMUX, '    raise GopherExceptions.FileNotFound(selector, "no handler found", protocol)\n',
+       '    reasons = {type(None): "no such file", tuple: "no handler found"}\n    raise GopherExceptions.FileNotFound(selector, reasons[type(statresult)], protocol)\n'))
+fault("c15-falsy-fields-not-cached", "C15", "R15h",
+      (GE, "    def populatefromvfs(", "    def __getstate__(self):\n        return {k: v for k, v in self.__dict__.items() if v}\n\n    def populatefromvfs("))
+fault("c16-archive-entry-without-inner-handler", "C16", "R16j",
+      (ZIP, "    def getentry(self):\n        self._makehandler()\n        return self.handler.getentry()\n",
+       "    def getentry(self):\n        if self.appendage is None:\n            return BaseHandler.getentry(self)\n        self._makehandler()\n        return self.handler.getentry()\n"))
+fault("c17-content-falsy-is-nothing", "C17", "R17l",
+      (TALPY, "\t\telif (not result == simpleTALES.DEFAULTVALUE):\n\t\t\t# We have content, so let's suppress the natural content and output this!\n",
+       "\t\telif (result and not result == simpleTALES.DEFAULTVALUE):\n\t\t\t# We have content, so let's suppress the natural content and output this!\n"))
+fault("c17-omit-tag-on-any-value", "C17", "R17l", (TALPY, "\t\tif (result is not None and result):\n\t\t\t# Turn tag output off\n", "\t\tif (result is not None):\n\t\t\t# Turn tag output off\n"))
+fault("c17-attributes-drop-zero", "C17", "R17l",
+      (TALPY, "\t\t\tif (resultVal is None):\n\t\t\t\t# Remove this attribute from the current attributes\n", "\t\t\tif (not resultVal):\n\t\t\t\t# Remove this attribute from the current attributes\n"))
+twin("c17-twin-content-args-unpacked", "C17",
+     (TALPY, "\t\tresult = self.context.evaluate (args[2], self.originalAttributes)\n\t\tif (result is None):\n\t\t\tif (args[0]):",
+      "\t\treplaceFlag = args[0]\n\t\tresult = self.context.evaluate (args[2], self.originalAttributes)\n\t\tif (result is None):\n\t\t\tif (replaceFlag):"))
+fault("c19-keys-not-loaded-at-start", "C19", "R19a", (INIT, "            context.load_cert_chain(certfile, keyfile)\n", ""))
+fault("c20-refusal-written-outside-the-try", "C20", "R20a",
+      (SERVER, "        protohandler = ProtocolMultiplexer.getProtocol(\n            request, self.server, self, self.rfile, self.wfile, self.server.config\n        )\n        try:",
+       "        if len(request) > 65536:\n            self.wfile.write(b\"3Request line too long\\t\\terror.host\\t0\\r\\n\")\n            return\n"
+       "        protohandler = ProtocolMultiplexer.getProtocol(\n            request, self.server, self, self.rfile, self.wfile, self.server.config\n        )\n        try:"))
